@@ -461,6 +461,7 @@ fn gen_c07(seed: u64, idx: usize, _tier: Tier) -> C07Scenario {
     let mut phases = vec![];
     let mut g = HistGen::new(&mut rng, model, dirs, prot);
     g.big_left = if g.rng.chance(1, 6) { 1 } else { 0 };
+    g.links_left = if g.rng.chance(1, 8) { 1 } else { 0 };
     for _ in 0..np {
         let nd = g.rng.range(1, 8);
         let dirty: Vec<GitOp> = (0..nd).map(|_| g.repo_op()).collect();
@@ -469,7 +470,7 @@ fn gen_c07(seed: u64, idx: usize, _tier: Tier) -> C07Scenario {
         for _ in 0..ne {
             // creation, change to never-seen content, or deletion of a committed file
             let head: BTreeSet<String> = g.model.head().keys().filter(|p| g.model.wt.contains_key(*p) && !g.protected.contains(*p)).cloned().collect();
-            let wt: Vec<String> = g.model.wt.keys().filter(|p| !g.model.is_ignored(p)).cloned().collect();
+            let wt: Vec<String> = g.model.wt.keys().filter(|p| !g.model.is_ignored(p) && !g.protected.contains(*p)).cloned().collect();
             let op = match g.rng.below(3) {
                 0 if !head.is_empty() => {
                     let v: Vec<&String> = head.iter().collect();
